@@ -71,12 +71,28 @@ std::string Net::srv_take(Conn &c, size_t n) {
 	return r;
 }
 
+static void resolve_syn(Conn *c) {
+	if (c->st != Conn::SYN_SENT) return;
+	if (c->will_blackhole) return;
+	if (K.now_ms < c->ready_at) return;
+	if (c->will_refuse) {
+		c->st = Conn::REFUSED;
+		c->ended_seq = K.ev("net refused c%d", c->idx);
+		c->end_kind = "refused";
+	} else {
+		c->st = Conn::ESTABLISHED;
+		c->established_seq = K.ev("net established c%d", c->idx);
+	}
+}
+
 void Net::srv_write(Conn &c, const std::string &bytes) {
+	resolve_syn(&c); // a server can only act on a connection whose handshake has completed
 	if (c.srv_closed || c.rst || c.st != Conn::ESTABLISHED) return;
 	c.s2c_all += bytes;
 }
 
 size_t Net::deliver(Conn &c, size_t n) {
+	resolve_syn(&c);
 	if (c.st != Conn::ESTABLISHED || c.rst) return 0;
 	size_t fl = c.inflight();
 	if (n == 0 || n > fl) n = fl;
@@ -94,12 +110,14 @@ size_t Net::deliver(Conn &c, size_t n) {
 }
 
 void Net::srv_close(Conn &c) {
+	resolve_syn(&c);
 	if (c.st != Conn::ESTABLISHED || c.srv_closed || c.rst) return;
 	c.srv_closed = true;
 	K.ev("net srv-close c%d (inflight %zu)", c.idx, c.inflight());
 }
 
 void Net::srv_reset(Conn &c) {
+	resolve_syn(&c);
 	if (c.st != Conn::ESTABLISHED || c.rst) return;
 	c.rst = true;
 	c.s2c_all.resize(c.s2c_arrived); // in-flight data is lost
@@ -213,19 +231,6 @@ int __wrap_setsockopt(int fd, int level, int optname, const void *optval, sockle
 	return 0;
 }
 
-static void resolve_syn(Conn *c) {
-	if (c->st != Conn::SYN_SENT) return;
-	if (c->will_blackhole) return;
-	if (K.now_ms < c->ready_at) return;
-	if (c->will_refuse) {
-		c->st = Conn::REFUSED;
-		c->ended_seq = K.ev("net refused c%d", c->idx);
-		c->end_kind = "refused";
-	} else {
-		c->st = Conn::ESTABLISHED;
-		c->established_seq = K.ev("net established c%d", c->idx);
-	}
-}
 
 int __wrap_connect(int fd, const struct sockaddr *addr, socklen_t len) {
 	Conn *c = N.by_fd(fd);
@@ -296,6 +301,9 @@ ssize_t __wrap_recv(int fd, void *buf, size_t len, int flags) {
 	Conn *c = N.by_fd(fd);
 	if (!c) return __real_recv(fd, buf, len, flags);
 	if (c->client_closed) { syscall_tick(true); K.fail("C14", "fd-use-after-close", "recv", "recv on closed c%d", c->idx); errno = EBADF; return -1; }
+	resolve_syn(c);
+	// a handshake still in progress: Linux makes a non-blocking reader wait (EAGAIN), it is not an error
+	if (c->st == Conn::SYN_SENT && c->nonblock) { syscall_tick(false); K.ev("recv c%d -> EAGAIN (connecting)", c->idx); errno = EAGAIN; return -1; }
 	if (c->st != Conn::ESTABLISHED && c->st != Conn::REFUSED) { syscall_tick(true); errno = ENOTCONN; return -1; }
 	if (c->st == Conn::REFUSED) { syscall_tick(true); errno = ECONNREFUSED; return -1; }
 	NetEndpoint &e = N.eps[c->ep];
@@ -353,6 +361,8 @@ ssize_t __wrap_send(int fd, const void *buf, size_t len, int flags) {
 	Conn *c = N.by_fd(fd);
 	if (!c) return __real_send(fd, buf, len, flags);
 	if (c->client_closed) { syscall_tick(true); K.fail("C14", "fd-use-after-close", "send", "send on closed c%d", c->idx); errno = EBADF; return -1; }
+	resolve_syn(c);
+	if (c->st == Conn::SYN_SENT && c->nonblock) { syscall_tick(false); K.ev("send c%d -> EAGAIN (connecting)", c->idx); errno = EAGAIN; return -1; }
 	if (c->st == Conn::REFUSED) { syscall_tick(true); errno = ECONNREFUSED; return -1; }
 	if (c->st != Conn::ESTABLISHED) { syscall_tick(true); errno = ENOTCONN; return -1; }
 	NetEndpoint &e = N.eps[c->ep];
